@@ -8,6 +8,7 @@ import asyncio
 import itertools
 import os
 import pathlib
+import time
 
 import aioftp
 
@@ -59,6 +60,15 @@ ASSUMPTIONS = [
 ]
 
 SEGS = ["a", "b", "..", ".", "", "a\\b", "..\\..", "C:", "C:x", "C:..", "\\x", ".hidden", "..."]
+# compatibility look-alikes of '.', '/', '\\', ':' and of plain letters ("for all path strings"): none of them is '..' or a
+# separator for the server, so each is an ordinary name -- and must stay one on the real side (no Unicode normalisation
+# between the '..' fold and the backend).  U+2024 ONE DOT LEADER, U+FF0E FULLWIDTH FULL STOP, U+2025 TWO DOT LEADER,
+# U+FF0F FULLWIDTH SOLIDUS, U+FE52 SMALL FULL STOP, U+FF3C FULLWIDTH REVERSE SOLIDUS, U+FF1A FULLWIDTH COLON,
+# U+FF41 FULLWIDTH a, e + U+0301 (decomposed e-acute), U+00E9 (composed), U+2215 DIVISION SLASH
+UNI_SEGS = ["a", "..", "", "\u2024\u2024", "\uff0e\uff0e", "\u2025", "\uff0e\uff0e\uff0fx", "\uff0e", "x\uff0fy", "\ufe52\ufe52", "\uff3cx", "C\uff1a",
+            "\uff41", "e\u0301", "\u00e9", "\u2215x"]
+UNI_COMBOS = [("posix", "/srv/ftp", "/"), ("posix", "rel/base", "/a/b"), ("posix", "/srv/ftp", "/\u2024\u2024/\uff41"), ("win", "C:\\ftp", "/"),
+              ("posix", "/", "/a"), ("posix", "/srv/\uff41", "/"), ("win", "C:\\ftp\\sub", "/a"), ("win", "ftp\\rel", "/\uff0e\uff0e")]
 PREFIXES = ["", "/", "//", "///"]
 CWDS = ["/", "/a", "/a/b", "/a/../b", "//x", "/..", "/a\\b/C:"]
 POSIX_BASES = ["/srv/ftp", "rel/base", ".", "/srv/../x", "", "/", "//srv/ftp"]
@@ -329,8 +339,9 @@ def check_get_paths(ctx, impl, flavour, base, cwd, s, mo, stream):
         )
 
 
-def stream_get_paths(ctx, xcheck, k=None, n_random=None):
-    thorough = ctx.tier == "thorough"
+def stream_get_paths(ctx, xcheck, k=None, n_random=None, layer_mod=4, layer_offsets=(0,), skip_short=False, deadline=None):
+    """deadline (time.time() value): stop between (base, cwd) pairs when it has passed (bounded search)"""
+    thorough = ctx.tier == "thorough" and deadline is None
     k = k or (4 if thorough else 3)
     n_random = n_random or (60000 if thorough else 6000)
     rng = ctx.rng
@@ -345,10 +356,13 @@ def stream_get_paths(ctx, xcheck, k=None, n_random=None):
         seen = set(short)
         long_ = [s for s in path_strings_n(k) if s not in seen]
     for idx, (flavour, base, cwd) in enumerate(combos):
+        if deadline is not None and time.time() > deadline:
+            ctx.notes.append(f"bounded search: get_paths k={k} stopped after {idx} of {len(combos)} (base, cwd) pairs")
+            break
         if thorough:
             mine = strs
         else:
-            mine = short + [s for j, s in enumerate(long_) if (j + idx) % 4 == 0]
+            mine = ([] if skip_short else short) + [s for j, s in enumerate(long_) if (j + idx) % layer_mod in layer_offsets]
         fn = 10 if flavour == "posix" else 30
         out = ctx.model([(fn, [base, cwd, s]) for s in mine])
         for s, mo in zip(mine, out):
@@ -362,8 +376,9 @@ def stream_get_paths(ctx, xcheck, k=None, n_random=None):
     for _ in range(n_random):
         flavour = rng.choice(["posix", "posix", "win"])
         base = rng.choice(POSIX_BASES if flavour == "posix" else WIN_BASES)
-        cwd = "/" + "/".join(rng.choice(SEGS[:4] + SEGS[5:]) for _ in range(rng.randint(0, 4))) if rng.random() < 0.6 else rng.choice(CWDS)
-        s = rng.choice(PREFIXES + ["", ""]) + "/".join(rng.choice(SEGS) for _ in range(rng.randint(3, 7)))
+        alpha = SEGS + UNI_SEGS[3:] if rng.random() < 0.3 else SEGS  # a third of the random paths mix in Unicode look-alikes
+        cwd = "/" + "/".join(rng.choice(alpha[:4] + alpha[5:]) for _ in range(rng.randint(0, 4))) if rng.random() < 0.6 else rng.choice(CWDS)
+        s = rng.choice(PREFIXES + ["", ""]) + "/".join(rng.choice(alpha) for _ in range(rng.randint(3, 7)))
         rnd.append((flavour, base, cwd, s))
     rnd.sort()
     out = ctx.model([(10 if f == "posix" else 30, [b, c, s]) for f, b, c, s in rnd])
@@ -372,6 +387,34 @@ def stream_get_paths(ctx, xcheck, k=None, n_random=None):
         check_get_paths(ctx, impl, flavour, base, cwd, s, mo, "get_paths_random")
     ctx.count("get_paths_random_long", len(rnd))
     ctx.sample({"stream": "get_paths", "flavour": "posix", "base": "/srv/ftp", "cwd": "/a/../b", "path": "//a/../../b/./..hidden"})
+    impl.close()
+
+
+def stream_unicode(ctx, xcheck, k=None, deadline=None):
+    """get_paths on names made of compatibility look-alikes of '.', '..', '/', '\\', ':' and letters: bounded-exhaustive
+    over UNI_SEGS (k segments, 3 prefixes) x UNI_COMBOS; same comparison and oracle as stream_get_paths"""
+    thorough = ctx.tier == "thorough"
+    k = k or 3
+    impl = Impl()
+    strs = path_strings(k, UNI_SEGS, ["", "/", "//"])
+    shorter = path_strings(k - 1, UNI_SEGS, ["", "/", "//"])
+    n = 0
+    for idx, (flavour, base, cwd) in enumerate(UNI_COMBOS):
+        if deadline is not None and time.time() > deadline:
+            ctx.notes.append(f"bounded search: unicode k={k} stopped after {idx} of {len(UNI_COMBOS)} (base, cwd) pairs")
+            break
+        full = thorough or deadline is not None or idx < 4
+        mine = strs if full else shorter
+        fn = 10 if flavour == "posix" else 30
+        out = ctx.model([(fn, [base, cwd, s]) for s in mine])
+        for s, mo in zip(mine, out):
+            ctx.case(("gpu", flavour, base, cwd, s))
+            check_get_paths(ctx, impl, flavour, base, cwd, s, mo, "get_paths_unicode")
+            if len(xcheck) < 96 and ctx.rng.random() < 0.0005:
+                xcheck.append((fn, [base, cwd, s], mo))
+        n += len(mine)
+    ctx.count(f"get_paths_unicode_lookalikes_k{k}", n)
+    ctx.sample({"stream": "unicode", "flavour": "posix", "base": "/srv/ftp", "cwd": "/", "path": "\uff0e\uff0e\uff0fx/\u2024\u2024/a"})
     impl.close()
 
 
@@ -438,7 +481,7 @@ def stream_histories(ctx, xcheck):
 #         [4,s] STOR/APPE | [5,s,ok] RNFR | [6,s,ok] RNTO            (ok = accepted by the decorators)
 SESS_POSIX_USERS = [("/srv/a", "/"), ("/srv/b", "/"), ("/srv/a", "/d"), ("/srv/a/d", "/"), ("rel/base", "/a/../b"), ("", "/"), ("/", "/srv/a"), ("/srv/b", "/a\\b/C:")]
 SESS_WIN_USERS = [("C:\\ftp", "/"), ("C:\\ftp\\sub", "/a"), ("ftp\\rel", "/")]
-SESS_ARGS = ["f", "/f", "d", "/d", "d/f", "../f", "..", "/", "", ".", "//f", "/d/../f", "a\\b", "C:x", "../../f", "g"]
+SESS_ARGS = ["f", "/f", "d", "/d", "d/f", "../f", "..", "/", "", ".", "//f", "/d/../f", "a\\b", "C:x", "../../f", "g", "\uff0e\uff0e/f", "\u2024\u2024", "d/\uff0e\uff0e\uff0ff"]
 
 
 _REPORTED = {}
@@ -681,7 +724,7 @@ WIRE_TREE = {
 }
 # login, password, base_path, home_path
 WIRE_USERS = [("alice", "a", "/alice", "/"), ("bob", "b", "/bob", "/d"), ("carol", "c", "alice/d", "/"), ("root", "r", "/", "/alice"), ("dave", "d", "/bob", "/")]
-WIRE_ARGS = ["f", "/f", "d", "/d", "d/g", "g", "../f", "..", "/", "", ".", "//f", "/d/../f", "x/f", "e", "new", "/d/new", "../../f", "/alice/f"]
+WIRE_ARGS = ["f", "/f", "d", "/d", "d/g", "g", "../f", "..", "/", "", ".", "//f", "/d/../f", "x/f", "e", "new", "/d/new", "../../f", "/alice/f", "\uff0e\uff0e/f", "d/\u2024\u2024/f", "\uff0e\uff0e\uff0ff"]
 PATH_VERBS = ["CWD", "MLST", "MKD", "RMD", "DELE", "RNFR", "RNTO", "LIST", "MLSD", "RETR", "STOR", "APPE"]
 DATA_VERBS = ("LIST", "MLSD", "RETR", "STOR", "APPE")
 
@@ -985,7 +1028,7 @@ def known(ctx):
 
 
 # ---------------------------------------------------------------- entry points
-def correspondence(ctx, widen=False):
+def correspondence(ctx):
     ctx.extra["rule"] = (
         "streams: (pathlib) every string of <= 3 segments (4 thorough) over {a,..,.,'',a\\b,.h,...} x prefixes {'','/','//','///'} "
         "through each unary PurePosixPath operation of the model, all pairs of <= 2-segment strings through join/relative_to/"
@@ -1016,32 +1059,41 @@ def correspondence(ctx, widen=False):
         stream_winpath(ctx, xcheck)
     if want("normalize"):
         stream_normalize(ctx, xcheck)
+    if want("unicode"):
+        stream_unicode(ctx, xcheck, k=4 if ctx.tier == "thorough" else 3)
     if want("get_paths"):
-        if widen:
-            stream_get_paths(ctx, xcheck, k=4, n_random=40000)
-        else:
-            stream_get_paths(ctx, xcheck)
+        stream_get_paths(ctx, xcheck)
     if want("histories"):
         stream_histories(ctx, xcheck)
-    if not widen:
-        if want("wire"):
-            stream_wire(ctx, xcheck)
-        if want("relogin"):
-            stream_relogin(ctx, xcheck)
+    if want("wire"):
+        stream_wire(ctx, xcheck)
+    if want("relogin"):
+        stream_relogin(ctx, xcheck)
     ok, out = core.vm_crosscheck(EXTRACT, xcheck[:100])
     ctx.extra["vm_compute_crosscheck"] = {"cases": len(xcheck[:100]), "agree": ok}
     if not ok:
         ctx.obligation_broken("extraction-crosscheck", out)
 
 
+SEARCH_BUDGET_S = 180
+
+
 def search(ctx):
-    """the oracle already ran on every real output; when something is broken and no failing input
-    was found yet, widen the exhaustive layer once"""
+    """the oracle already ran on every real output; when an obligation or the tie is broken and no failing input
+    was found yet, widen the exhaustive layers -- within SEARCH_BUDGET_S seconds of wall time, so that the check
+    always ends with a verdict: look-alike names one segment deeper, the part of the 3-segment layer the quick
+    run spread elsewhere, a 32nd of the 4-segment layer, more random long paths"""
     if ctx.violations or ctx.tier == "thorough" or ctx.exe is None:
         return
+    xcheck = []
+    third = SEARCH_BUDGET_S / 3
     try:
-        correspondence(ctx, widen=True)
-    except Exception as e:
+        stream_unicode(ctx, xcheck, k=4, deadline=time.time() + third)
+        if not ctx.violations:
+            stream_get_paths(ctx, xcheck, k=3, n_random=8000, layer_offsets=(1, 2), skip_short=True, deadline=time.time() + third)
+        if not ctx.violations:
+            stream_get_paths(ctx, xcheck, k=4, n_random=1, layer_mod=32, layer_offsets=(0,), skip_short=True, deadline=time.time() + third)
+    except Exception as e:  # noqa: BLE001
         ctx.notes.append(f"search aborted: {e!r}")
 
 
